@@ -76,21 +76,29 @@ V == 0..(N-1)
 (* message classes                                                          *)
 
 RecordedBad == {"badshare", "badcommit", "tlow", "thigh", "nocommits"}
-                  \cup (IF Variant = "rabin" THEN {"badrnd", "rndindex"} ELSE {})
-Rejected    == {"wrongindex", "indexoor", "wrongrecipient", "forgedsig", "garbage", "noshare"}
+                  \cup (IF Variant = "rabin" THEN {"badrnd", "rndindex", "equivocate"} ELSE {})
+    \* equivocate (rabin): (f_i + d, g_i - d/h) for a KNOWN h = log_G(H): opens the same commitment to another share.
+    \* Only concretisable if the harness can find such an h by a natural recipe; otherwise the case is unwitnessed.
+Rejected    == {"wrongindex", "indexoor", "wrongrecipient", "forgedsig", "sigreuse", "garbage", "noshare"}
+    \* sigreuse: attacker-made envelope (own ephemeral key) carrying the dealer's signature of ANOTHER ephemeral key
 AllDealKinds == {"good"} \cup RecordedBad \cup Rejected
 DealKinds   == IF Menu = "full" THEN AllDealKinds
                ELSE {"good", "badshare", "tlow", "wrongindex", "forgedsig"}
 
-AllRespCls  == {"valid", "forged", "wrongsid", "oor", "unsigned"}
-RespCls     == IF Menu = "full" THEN AllRespCls ELSE {"valid", "forged"}
+(* relabel / reindex / resession: a GENUINE signature of a verifier, with one signed field changed afterwards
+   (status flipped / index replaced by i / other session's id replaced by this one): fields not covered by the
+   signature would make these pass *)
+AllRespCls  == {"valid", "forged", "wrongsid", "oor", "unsigned", "relabel", "reindex", "resession"}
+RespCls     == IF Menu = "full" THEN AllRespCls ELSE {"valid", "forged", "relabel"}
 
 (* justification classes: who signed / what is revealed                      *)
 DealerWrong  == {"wrongshare", "otherindex", "altcommit"}     \* signed by the dealer, content incorrect
 ContentOK    == {"correct", "forgedcorrect", "unsignedcorrect"}
-Unauth       == {"forgedcorrect", "unsignedcorrect", "unsignedother", "unsignedwrong"}
+(* resigother / resigindex: the dealer's genuine signature of a correct justification, reused after replacing the
+   deal by another verifier's / after replacing the index *)
+Unauth       == {"forgedcorrect", "unsignedcorrect", "unsignedother", "unsignedwrong", "resigother", "resigindex"}
 AllJustCls   == {"correct", "wrongshare", "otherindex", "altcommit", "forgedcorrect", "unsignedcorrect",
-                 "unsignedother", "unsignedwrong", "wrongsid", "oor"}
+                 "unsignedother", "unsignedwrong", "wrongsid", "oor", "resigother", "resigindex"}
 JustCls      == IF Menu = "full" THEN AllJustCls
                 ELSE {"correct", "wrongshare", "otherindex", "unsignedother", "altcommit"}
 
